@@ -1368,6 +1368,11 @@ class Process(StateMachine, persistence.Savable, metaclass=ProcessStateMachineMe
                 next_state = self.create_state(process_states.ProcessState.EXCEPTED, *sys.exc_info()[1:])
                 self._set_interrupt_action(None)
 
+            if isinstance(next_state, process_states.Excepted):
+                # The step function raised (``Running.execute`` turns that into the EXCEPTED state): as for an exception
+                # raised by ``execute`` itself, the failure overrules a pending pause or kill
+                self._set_interrupt_action(None)
+
             if self.has_terminated():
                 # The process was terminated while the step was suspended (e.g. failed by a scheduled callback that
                 # raised): a terminal state is final, so there is nothing left to transition to
